@@ -54,7 +54,7 @@ fn any_proof(env: &Env, n: usize) -> Proof {
 }
 
 /// One installed set (N signers) at symbolic epoch s <= e; arbitrary proof with NP entries.
-fn c01_wiring(n: usize, np: usize) {
+fn c01_wiring(n: usize, np: usize) -> u8 {
     let env = Env::default();
     unsafe {
         REC_CALLS = 0;
@@ -86,6 +86,7 @@ fn c01_wiring(n: usize, np: usize) {
     let w0 = model::storage_writes();
     let res = model::with_contract(&gw(), || validate_proof(&env, &data_hash, proof.clone()));
     let names_installed = proof.weighted_signers() == inst;
+    let outcome: u8;
     match res {
         Ok(latest) => {
             kani::assert(names_installed, "VERIF:C01:accepted proof names exactly an installed signer set (members, weights, threshold, nonce)");
@@ -94,43 +95,50 @@ fn c01_wiring(n: usize, np: usize) {
             kani::assert(unsafe { REC_CALLS == 1 && REC_RET }, "VERIF:C01:signatures were validated once and accepted");
             kani::assert(unsafe { REC_PROOF_OK }, "VERIF:C01:the submitted proof is what gets validated");
             kani::assert(unsafe { REC_HASH } == digest, "VERIF:C01:digest binds domain separator, signer-set hash and data hash");
-            kani::cover!(s_ep < e, "VERIF:reach:older retained set accepted");
-            kani::cover!(s_ep == e, "VERIF:reach:latest set accepted");
+            outcome = if s_ep < e { 1 } else { 2 };
         }
         Err(_) => {
             // completeness of the wiring: an installed, retained set with accepted signatures is honoured
             kani::assert(!(names_installed && e - s_ep <= r && unsafe { REC_RET }), "VERIF:C08:a proof from a retained installed set with valid signatures is honoured");
-            kani::cover!(names_installed && e - s_ep > r, "VERIF:reach:outdated set refused");
-            kani::cover!(!names_installed, "VERIF:reach:unknown set refused");
+            outcome = if names_installed && e - s_ep > r { 3 } else if !names_installed { 4 } else { 5 };
         }
     }
     kani::assert(model::storage_writes() == w0 && model::events_len() == 0, "VERIF:C01:proof validation changes nothing");
+    outcome
+}
+fn covers_matching(o: u8) {
+    kani::cover!(o == 1, "VERIF:reach:older retained set accepted");
+    kani::cover!(o == 2, "VERIF:reach:latest set accepted");
+    kani::cover!(o == 3, "VERIF:reach:outdated set refused");
+    kani::cover!(o == 4, "VERIF:reach:unknown set refused");
 }
 // HARNESS props=C01,C08 tier=quick profile=gw_wire1 shape="installed set N=1, proof with 1 entry; epochs/retention full u64; key bytes S=2"
 #[kani::proof]
 #[kani::unwind(114)]
 #[kani::stub(validate_signatures, stub_validate_signatures)]
 fn c01_wiring_n1() {
-    c01_wiring(1, 1)
+    covers_matching(c01_wiring(1, 1))
 }
 // HARNESS props=C01,C08 tier=quick profile=gw_wire2 shape="installed set N=2, proof with 2 entries"
 #[kani::proof]
 #[kani::unwind(166)]
 #[kani::stub(validate_signatures, stub_validate_signatures)]
 fn c01_wiring_n2() {
-    c01_wiring(2, 2)
+    covers_matching(c01_wiring(2, 2))
 }
 // HARNESS props=C01 tier=quick profile=gw_wire2 shape="installed set N=2, proof with 1 entry (dropped signer)"
 #[kani::proof]
 #[kani::unwind(166)]
 #[kani::stub(validate_signatures, stub_validate_signatures)]
 fn c01_wiring_n2_p1() {
-    c01_wiring(2, 1)
+    let o = c01_wiring(2, 1);
+    kani::cover!(o == 4, "VERIF:reach:proof with a dropped signer refused");
 }
 // HARNESS props=C01 tier=quick profile=gw_wire2 shape="installed set N=1, proof with 2 entries (added/duplicated signer)"
 #[kani::proof]
 #[kani::unwind(166)]
 #[kani::stub(validate_signatures, stub_validate_signatures)]
 fn c01_wiring_n1_p2() {
-    c01_wiring(1, 2)
+    let o = c01_wiring(1, 2);
+    kani::cover!(o == 4, "VERIF:reach:proof with an added signer refused");
 }
